@@ -180,3 +180,69 @@ NAMED = [
     ((0, 1, 2, 3), frozenset([(0, 4), (4, 0), (2, 1)])),
     ((3, 1, 0, 2), frozenset([(0, 0), (1, 2), (3, 4), (4, 1), (2, 2)])),
 ]
+
+
+# --------------------------------------------------------------------------------------------
+# 'scale' family: structured long permutations (sizes straddling thresholds of the runtime:
+# 8-slot / 32-slot set tables, the small-int cache at 256, byte-sized buffers)
+# --------------------------------------------------------------------------------------------
+
+SCALE_SIZES_QUICK = [7, 8, 9, 10, 11, 12, 33, 257]
+SCALE_SIZES_MORE = [31, 32, 34, 255, 256, 258, 300]
+
+
+def long_shapes(n):
+    """Named structured permutations of length n (n >= 7), duplicate-free, as plain tuples."""
+    import math
+    inc = tuple(range(n))
+    dec = tuple(range(n - 1, -1, -1))
+
+    def swap(i):
+        p = list(inc)
+        p[i], p[i + 1] = p[i + 1], p[i]
+        return tuple(p)
+    k = next(k for k in range(2, n) if math.gcd(k, n) == 1)
+    q = n // 2
+    shapes = [
+        ("increasing", inc),
+        ("decreasing", dec),
+        ("increasing, transposition at 0", swap(0)),
+        ("increasing, transposition at 1", swap(1)),
+        ("increasing, transposition in the middle", swap(n // 2)),
+        ("increasing, transposition at the end", swap(n - 2)),
+        ("cyclic shift", inc[1:] + (0,)),
+        ("layered, layers of 2", tuple(i + 1 if i % 2 == 0 and i + 1 < n else (i - 1 if i % 2 else i)
+                                       for i in range(n))),
+        ("%d*i mod n" % k, tuple(k * i % n for i in range(n))),
+        ("021 + increasing", (0, 2, 1) + tuple(range(3, n))),
+        ("120 skew decreasing", (n - 2, n - 1, n - 3) + tuple(range(n - 4, -1, -1))),
+        ("%d then decreasing" % q, (q,) + tuple(v for v in dec if v != q)),
+    ]
+    out, seen = [], set()
+    for name, p in shapes:
+        assert R.is_perm(p), name
+        if p not in seen:
+            seen.add(p)
+            out.append((name, p))
+    return out
+
+
+SHORT_POOL = [p for n in (1, 2, 3) for p in R.perms(n)] + \
+    [(0, 1, 2, 3), (0, 2, 3, 1), (1, 3, 0, 2), (3, 2, 1, 0)]
+SHORT_POOL_SMALL = [(0,), (0, 1), (1, 0), (0, 2, 1), (0, 2, 3, 1)]
+LENGTH_CHAIN = [(0,), (0, 1), (0, 2, 1), (0, 2, 3, 1), (0, 2, 3, 4, 1)]
+
+
+def scale_bases(n):
+    """Mixed-length sets: one long structured permutation of length n plus one or two short ones
+    (all 1- and 2-subsets of SHORT_POOL for n <= 12, of SHORT_POOL_SMALL above), plus the long one
+    with one permutation of each length 1..5 (six distinct lengths), plus the long one alone.
+    Members are listed in increasing (length, lex) order."""
+    pool = SHORT_POOL if n <= 12 else SHORT_POOL_SMALL
+    out = []
+    for _, p in long_shapes(n):
+        out.append((p,))
+        for sub in R.subsets(pool, 2):
+            out.append(tuple(sub) + (p,))
+        out.append(tuple(LENGTH_CHAIN) + (p,))
+    return out
